@@ -158,6 +158,49 @@ static inline int post_verif_mb_deref(mb_t m, unsigned long ret) { return ret ==
 static inline int pre_verif_mb_value_of(mb_t m) { return MB_TAG(m) == 0; }
 static inline int post_verif_mb_value_of(mb_t m, unsigned long ret) { return ret == MB_VAL(m); }
 
+/* =============================================================== utl::maybe<trk_t>  ~  std::optional<trk_t>   (NON-TRIVIAL element type)
+ * trk_t (inst/c19.cpp) has user-provided constructors / destructor / copy assignment and counts live objects (trk_live) and
+ * operations on objects that are not alive (trk_bad: assignment to / copy from / destruction of raw or destroyed storage).
+ * The scenario wrappers build the maybe objects from scalars, run ONE operation and return the observation
+ *   (has, val)   = has_value() / (*m).val of the result          (has2, val2) = the same for the second object (the source)
+ *   live, bad    = the counters at that moment (inside the scope of the maybe objects; verif_mbt_scope: after it)
+ * Expected values are those of the same program over std::optional<trk_t>:  bad == 0 always;  live == number of trk_t locals of
+ * the wrapper + number of maybe objects that hold a value at that moment.  `junk` is the content given to the raw payload storage
+ * of an empty maybe (arbitrary: correct code never looks at it). */
+#define MBT_IS(p, h, v, l) ((((p).has != 0) == ((h) != 0)) && IMPLIES((h) != 0, (p).val == (v)) && (p).live == (long)(l) && (p).bad == 0L)
+#define MBT_IS2(p, h, v)   ((((p).has2 != 0) == ((h) != 0)) && IMPLIES((h) != 0, (p).val2 == (v)))
+#define B01(b)             ((b) != 0 ? 1 : 0)
+static inline int pre_verif_mbt_default(void) { return 1; }
+static inline int post_verif_mbt_default(mbtp_t ret) { return MBT_IS(ret, 0, 0UL, 0); }
+static inline int pre_verif_mbt_nothing(void) { return 1; }
+static inline int post_verif_mbt_nothing(mbtp_t ret) { return MBT_IS(ret, 0, 0UL, 0); }
+static inline int pre_verif_mbt_value(unsigned long x) { return 1; }
+static inline int post_verif_mbt_value(unsigned long x, mbtp_t ret) { return MBT_IS(ret, 1, x, 2); }
+/* copy construction: same contents, one more live payload iff the source holds one; the source keeps its (later modified) value */
+static inline int pre_verif_mbt_copy(int has, unsigned long x, unsigned long junk) { return 1; }
+static inline int post_verif_mbt_copy(int has, unsigned long x, unsigned long junk, mbtp_t ret)
+{ return MBT_IS(ret, has, x, 1 + 2 * B01(has)) && MBT_IS2(ret, has, x + 1UL); }
+/* dst = src : dst holds a value iff src does (a copy of it); locals ta, tb + one payload per valued maybe */
+static inline int pre_verif_mbt_assign(int dst_has, unsigned long a, int src_has, unsigned long b, unsigned long junk) { return 1; }
+static inline int post_verif_mbt_assign(int dst_has, unsigned long a, int src_has, unsigned long b, unsigned long junk, mbtp_t ret)
+{ return MBT_IS(ret, src_has, b, 2 + 2 * B01(src_has)) && MBT_IS2(ret, src_has, b); }
+static inline int pre_verif_mbt_self_assign(int has, unsigned long x, unsigned long junk) { return 1; }
+static inline int post_verif_mbt_self_assign(int has, unsigned long x, unsigned long junk, mbtp_t ret)
+{ return MBT_IS(ret, has, x, 1 + B01(has)) && MBT_IS2(ret, has, x); }
+/* m = t : m holds a copy of t whatever it held before (locals ta, t + the payload) */
+static inline int pre_verif_mbt_assign_value(int has, unsigned long a, unsigned long x, unsigned long junk) { return 1; }
+static inline int post_verif_mbt_assign_value(int has, unsigned long a, unsigned long x, unsigned long junk, mbtp_t ret)
+{ return MBT_IS(ret, 1, x, 3); }
+/* m = nothing : m is empty and a payload it held has been destroyed (only the local ta is alive) */
+static inline int pre_verif_mbt_assign_nothing(int has, unsigned long a, unsigned long junk) { return 1; }
+static inline int post_verif_mbt_assign_nothing(int has, unsigned long a, unsigned long junk, mbtp_t ret)
+{ return MBT_IS(ret, 0, 0UL, 1); }
+static inline int pre_verif_mbt_write(unsigned long a, unsigned long x) { return 1; }
+static inline int post_verif_mbt_write(unsigned long a, unsigned long x, mbtp_t ret) { return MBT_IS(ret, 1, x, 2) && MBT_IS2(ret, 1, x); }
+/* after the scope of the maybe objects only the wrapper's local t is alive (std::optional destroys its payload) */
+static inline int pre_verif_mbt_scope(int has, unsigned long x, unsigned long junk) { return 1; }
+static inline int post_verif_mbt_scope(int has, unsigned long x, unsigned long junk, mbtp_t ret) { return ret.live == 1L && ret.bad == 0L; }
+
 /* =============================================================== utl::either<size_t,int>  ~  std::variant<size_t,int>
  * Inv: tag in {LEFT(0), RIGHT(1)}; view = (index, value of the active alternative) */
 static inline int ei_inv(ei_t e) { return EI_TAG(e) == 0 || EI_TAG(e) == 1; }
@@ -240,3 +283,38 @@ static inline int post_verif_vec_zero_push(unsigned long x, vecp_t ret) { return
 static inline int post_verif_vec_variadic(unsigned long a, unsigned long b, unsigned long c3, vecp_t ret) { return ret.size == 3UL && ret.at_i == a && ret.size2 == b && ret.at2_i == c3; }
 static inline int pre_verif_vec_push_alias(unsigned long k, unsigned long x) { return k >= 1UL && k <= 6UL; }
 static inline int post_verif_vec_push_alias(unsigned long k, unsigned long x, vecp_t ret) { return ret.size == k + 1UL && ret.at_i == x && ret.size2 == x; }
+
+/* --------------------------------------------------------------- utl::maybe<utl::vector<size_t>>  ~  std::optional<std::vector<size_t>> */
+static inline int pre_verif_mbv_copy(unsigned long n, unsigned long i, unsigned long x, unsigned long y) { return n >= 1UL && n <= VEC_MAX && GHOST_DEF(g, i) && GHOST_DEF(vg, x); }
+static inline int post_verif_mbv_copy(unsigned long n, unsigned long i, unsigned long x, unsigned long y, vecp_t ret) { return ret.size == n && ret.at_i == x && ret.size2 == n && ret.at2_i == y; }
+static inline int pre_verif_mbv_assign(unsigned long n, unsigned long m, unsigned long i, unsigned long x, unsigned long y) { return n >= 1UL && n <= VEC_MAX && m >= 1UL && m <= VEC_MAX && GHOST_DEF(g, i) && GHOST_DEF(vg, x); }
+static inline int post_verif_mbv_assign(unsigned long n, unsigned long m, unsigned long i, unsigned long x, unsigned long y, vecp_t ret) { return ret.size == n && ret.at_i == x && ret.size2 == n && ret.at2_i == y; }
+static inline int pre_verif_mbv_self_assign(unsigned long n, unsigned long i, unsigned long x) { return n >= 1UL && n <= VEC_MAX && GHOST_DEF(g, i) && GHOST_DEF(vg, x); }
+static inline int post_verif_mbv_self_assign(unsigned long n, unsigned long i, unsigned long x, vecp_t ret) { return ret.size == n && ret.at_i == x; }
+static inline int pre_verif_mbv_scope(int has, unsigned long n) { return n >= 1UL && n <= VEC_MAX; }
+static inline int post_verif_mbv_scope(int has, unsigned long n, unsigned long ret) { return ret == n; }
+
+/* --------------------------------------------------------------- utl::either<trk_t,int>  ~  std::variant<trk_t,int>   (non-trivial left alternative)
+ * observation: index(), get_if<trk_t>()->val / *get_if<int>() of the result, and the trk_t counters at that moment (verif_e2_scope: after
+ * the scope of the either).  Expected as for std::variant: bad == 0; live == trk_t locals of the wrapper + eithers holding a trk_t */
+#define E2_LEFT(p, v, l)  ((p).index == 0L && (p).lval == (v) && (p).live == (long)(l) && (p).bad == 0L)
+#define E2_RIGHT(p, y, l) ((p).index == 1L && (p).rval == (long)(y) && (p).live == (long)(l) && (p).bad == 0L)
+static inline int pre_verif_e2_default(void) { return 1; }
+static inline int post_verif_e2_default(e2p_t ret) { return E2_LEFT(ret, 0UL, 1); }
+static inline int pre_verif_e2_left(unsigned long x) { return 1; }
+static inline int post_verif_e2_left(unsigned long x, e2p_t ret) { return E2_LEFT(ret, x, 2); }
+static inline int pre_verif_e2_right(int y) { return 1; }
+static inline int post_verif_e2_right(int y, e2p_t ret) { return E2_RIGHT(ret, y, 0); }
+static inline int pre_verif_e2_copy(int is_left, unsigned long x, int y) { return 1; }
+static inline int post_verif_e2_copy(int is_left, unsigned long x, int y, e2p_t ret) { return is_left != 0 ? E2_LEFT(ret, x, 3) : E2_RIGHT(ret, y, 1); }
+static inline int pre_verif_e2_assign(int dst_left, unsigned long a, int y1, int src_left, unsigned long b, int y2) { return 1; }
+static inline int post_verif_e2_assign(int dst_left, unsigned long a, int y1, int src_left, unsigned long b, int y2, e2p_t ret)
+{ return src_left != 0 ? E2_LEFT(ret, b, 4) : E2_RIGHT(ret, y2, 2); }
+static inline int pre_verif_e2_self_assign(int is_left, unsigned long x, int y) { return 1; }
+static inline int post_verif_e2_self_assign(int is_left, unsigned long x, int y, e2p_t ret) { return is_left != 0 ? E2_LEFT(ret, x, 2) : E2_RIGHT(ret, y, 1); }
+static inline int pre_verif_e2_assign_left(int is_left, unsigned long a, int y, unsigned long x) { return 1; }
+static inline int post_verif_e2_assign_left(int is_left, unsigned long a, int y, unsigned long x, e2p_t ret) { return E2_LEFT(ret, x, 3); }
+static inline int pre_verif_e2_assign_right(int is_left, unsigned long a, int y, int y2) { return 1; }
+static inline int post_verif_e2_assign_right(int is_left, unsigned long a, int y, int y2, e2p_t ret) { return E2_RIGHT(ret, y2, 1); }
+static inline int pre_verif_e2_scope(int is_left, unsigned long x, int y) { return 1; }
+static inline int post_verif_e2_scope(int is_left, unsigned long x, int y, e2p_t ret) { return ret.live == 1L && ret.bad == 0L; }
